@@ -2,22 +2,26 @@
 """Apply every behaviour-preserving rewrite of seeded-harmless/ to /repo in turn, run ALL quick checks, undo, and write
 seeded-harmless/RESULTS.json.  Every check is expected to stay silent (OK, or the KNOWN-FINDING line of the unchanged tree)."""
 import json, os, re, subprocess, sys, time
+# lanes: LANE_REPO / LANE_VERIF point at private copies of /repo and /verif (tools/run_lanes.sh), LANE_RESULTS at the lane's result file
+REPO = os.environ.get("LANE_REPO", "/repo")
+VERIF = os.environ.get("LANE_VERIF", "/verif")
+ENV = dict(os.environ, VERIF_REPO=REPO)
 D = "/verif/seeded-harmless"
 only = sys.argv[1:]
-rp = os.path.join(D, "RESULTS.json")
+rp = os.environ.get("LANE_RESULTS", os.path.join(D, "RESULTS.json"))
 results = json.load(open(rp)) if (only and os.path.exists(rp)) else {}
 props = [f"C{i:02d}" for i in range(1, 20)]
 for name in sorted(os.listdir(D)):
     d = os.path.join(D, name)
     if not os.path.isdir(d) or (only and name not in only):
         continue
-    assert subprocess.run(["git", "-C", "/repo", "diff", "--quiet"]).returncode == 0, "repo dirty"
-    subprocess.run(["git", "-C", "/repo", "apply", os.path.join(d, "patch.diff")], check=True)
+    assert subprocess.run(["git", "-C", REPO, "diff", "--quiet"]).returncode == 0, "repo dirty"
+    subprocess.run(["git", "-C", REPO, "apply", os.path.join(d, "patch.diff")], check=True)
     res = {}
     t0 = time.time()
     try:
         for p in props:
-            q = subprocess.run(["./check", p, "--tier", "quick"], cwd="/verif", capture_output=True, text=True)
+            q = subprocess.run(["./check", p, "--tier", "quick"], cwd=VERIF, env=ENV, capture_output=True, text=True)
             lines = [l for l in q.stdout.splitlines() if re.match(r"(OK|VIOLATION|INTERNAL)", l)]
             if q.returncode != 0:
                 entry = {"rc": q.returncode, "line": (lines[0] if lines else "")[:220]}
@@ -27,8 +31,8 @@ for name in sorted(os.listdir(D)):
                     entry["what"] = json.dumps(v.get("what_no_longer_checks") or v.get("kind"))[:600]
                 res[p] = entry
     finally:
-        subprocess.run(["git", "-C", "/repo", "checkout", "--", "."], check=True)
-        subprocess.run(["git", "-C", "/repo", "clean", "-fdq", "src", "tests"], check=True)
+        subprocess.run(["git", "-C", REPO, "checkout", "--", "."], check=True)
+        subprocess.run(["git", "-C", REPO, "clean", "-fdq", "src", "tests"], check=True)
     results[name] = {"alarms": res, "silent": not res, "wall_s": round(time.time() - t0)}
     print(name, "SILENT" if not res else res, flush=True)
     json.dump(results, open(rp, "w"), indent=1)
